@@ -357,6 +357,9 @@ func (c *Cluster) runOracles(final bool) {
 		if final || c.every("C10", 10) {
 			c.checkC10(n)
 		}
+		if final || c.every("C10", 7) {
+			c.checkQuorums(n)
+		}
 		if final || (c.cfg.Profile == "C04" && c.stepNo%10 == 0) || c.stepNo%50 == 0 {
 			c.checkC04(n)
 		}
